@@ -64,7 +64,7 @@ PROPS = {
     },
     'C04': {
         'level_text': "Unbounded proof on 32/64-bit targets: Verus proves on the real fill_contiguous, TakeSkip::next (as a lawful prophetic iterator: vstd's iterator laws are its proof obligations) and take_u32, for every rectangle (valid, < 2^32 points), every finite lawful colour stream of any length and every configuration: nothing is sent when the rectangle misses the display; otherwise one window = the clip, and the burst is fc_colors(area, clip, stream) - the stream after skipping rows-above x width + columns-left, read as take clip-width / skip (width - clip-width) alternately (ts_seq), cut at the clip size; no overflow in the skip arithmetic. lemma_ts_seq / lemma_fc_colors then prove the statement of the property about that burst: its j-th colour is stream[(dy + j / cw) * W + dx + j % cw], i.e. the colour of the j-th visible point in the rectangle's own row-major order (colour k on point k), the burst ends exactly where the stream no longer reaches a visible point (early end: remaining points untouched, no error), surplus colours are ignored (length <= clip area), clipped colours are skipped, never shifted. The bounded Kani harness (rectangles with corner -2..5 and sides <= 6x5 against a 5x4-cell controller simulator, stream length 0..area+2, all configurations) checks the same end to end through the real Iterator::nth/take.",
-        'level_note': 'Iterator::nth through `&mut` (A-nth) and Iterator::take (vstd) are assumed contracts, cross-checked by the bounded harness. The 16-bit-pointer variants of take_u32 / nth_u32 are not compiled on this host and are not verified (no 16-bit target installed): stated gap.',
+        'level_note': 'Iterator::nth through `&mut` (A-nth) and Iterator::take (vstd) are assumed contracts, cross-checked by the bounded harness. The 16-bit-pointer variants of take_u32 / nth_u32 (take_while with a counter; a loop of next()) are outside the subset Verus accepts; their bodies do not mention usize, so Kani compiles them on the host by exchanging the two cfg(target_pointer_width) predicates on its scratch copy and runs the bounded end-to-end harness on them (kani[ptr16]:c04_fill_contiguous_plain): bounded only, not proved.',
         'technique': 'Verus: TakeSkip as a lawful prophetic iterator + fill_contiguous contract over a recursive take/skip spec function; bounded Kani end-to-end harness',
         'verus': {'cfgs': ['default'], 'fns': [r'^Display::(fill_contiguous|set_pixels)$', r'^graphics::(TakeSkip::(new|next)|take_u32|ts_seq|ts_idx|fc_\w+|lemma_\w+)$']},
         'kani': {'files': ['graphics.rs'], 'groups': [{'quick': ['c04_fill_contiguous_plain'], 'thorough': ['c04_fill_contiguous_colour_k_on_point_k'], 'no_default': True,
@@ -73,8 +73,8 @@ PROPS = {
             # the bodies themselves do not mention usize): same end-to-end statement, bounded
             {'quick': ['c04_fill_contiguous_plain'], 'no_default': True, 'ptr16': True,
              'bounded': {'c04_fill_contiguous_plain': '16-bit-pointer bodies of take_u32/nth_u32 compiled on the host; rectangle corner x -2..=5, y -2..=4, sides <= 8 x 2, 5x4 panel, stream length <= area + 2'}, 'jobs': 8}]},
-        'functions': ['DrawTarget::fill_contiguous', 'TakeSkip::{new,next}', 'take_u32 (>= 32-bit pointers)'],
-        'assumptions': ['A-nth: nth_u32(&mut it, n) advances it past item n (core Iterator::nth; assumed, bounded Kani cross-check)', 'vstd Iterator::take specification', '16-bit-pointer variants not verified (not compilable here)',
+        'functions': ['DrawTarget::fill_contiguous', 'TakeSkip::{new,next}', 'take_u32 (>= 32-bit pointers: Verus; 16-bit bodies: bounded Kani)', 'nth_u32 (bounded Kani, both bodies)'],
+        'assumptions': ['A-nth: nth_u32(&mut it, n) advances it past item n (core Iterator::nth; assumed, bounded Kani cross-check)', 'vstd Iterator::take specification', '16-bit-pointer variants of take_u32/nth_u32: bounded Kani only (cfg predicates exchanged on the scratch copy), never counted as proved',
                         'closed form of ts_seq: Verus lemma (lemma_ts_seq, lemma_fc_colors)'],
     },
     'C08': {
@@ -137,7 +137,7 @@ PROPS = {
         'level_text': "Unbounded proof, generic in the Model: Verus proves on the real Builder::init that a zero or oversize width/height yields InvalidDisplaySize, a fitting size with offset+size beyond the framebuffer yields InvalidDisplayOffset (mathematical integers: the u32 arithmetic cannot wrap), the delay source is unused on rejection, a fitting window is never rejected as a size/offset error, and success implies the window fits and establishes the Display invariant. Kani proves for framebuffers 1x1, 240x320, 320x240, 65535x65535 over all u16^4 and with/without reset pin that init succeeds exactly when the window fits and that reset pin, delay source and bus are untouched on rejection (shared operation counter).",
         'level_note': "'Nothing touched on rejection' for the consumed builder's pin and bus is observable only through mocks: decided by Kani per instantiation; Verus states it for the delay source (a &mut parameter). Success additionally needs a model that accepts the interface kind and a fault-free bus.",
         'technique': 'Verus contract on Builder::init generic in M; Kani complete harness per framebuffer size',
-        'verus': {'cfgs': ['default'], 'fns': [r'^builder::Builder::(new|display_size|display_offset)$', r'^options::ModelOptions::(full_size|with_all)$', r'^builder::Builder::init$', r'^builder::InitError::from$', r'^models::ModelInitError::from$']},
+        'verus': {'cfgs': ['default'], 'fns': [r'^builder::Builder::(new|reset_pin|display_size|display_offset)$', r'^options::ModelOptions::(full_size|with_all)$', r'^builder::Builder::init$', r'^builder::InitError::from$', r'^models::ModelInitError::from$']},
         'kani': {'files': ['builder.rs'], 'groups': [{'quick': ['c09_init_1x1', 'c09_init_240x320', 'c09_init_max'], 'thorough': ['c09_init_320x240'], 'jobs': 8}]},
         'pairs': {r'Builder::init': ['c09_init_240x320', 'c09_init_1x1', 'c09_init_max']},
         'functions': ['Builder::init', 'From<ModelInitError> for InitError'],
@@ -192,7 +192,7 @@ PROPS = {
         'level_text': "Two layers. (1) Unbounded, generic in the transport: Verus verifies the real text of all 14 model init functions (and the two shared init_common helpers) against the Model trait contract init_post: whatever was sent before, after Ok the controller decoded from the bus trace is awake, switched on, holds MADCTL == MIPI encoding of the options (== the returned/cached value), an interface pixel format was announced, inversion as chosen, no memory write or pixel burst and no further reset happened, total delay >= 120 ms; a refusal is UnsupportedInterface with nothing sent; an Interface error ends the trace with the fault. (2) Complete per instantiation: for each of the 14 built-in model types x 3 interface kinds, Kani symbolically executes the real Builder::init and the model's init sequence (loop-free) with ALL options symbolic (colour order, orientation, inversion, refresh order, every size/offset init accepts, with and without reset pin) against a decoding Interface mock on a shared virtual timeline, and proves: awake, display on, last MADCTL == MIPI encoding of the options, COLMOD matches the colour type, inversion as chosen, no memory write / pixel call, >= 120 ms of delay after sleep-out before return; unsupported pairings return UnsupportedInterface with zero model commands; every pairing supported on the unchanged tree stays supported. Quick tier: 17 pairings (every model + the 3 refused pairings); thorough: all 42.",
         'level_note': "Per built-in model (finite set, enumerated; the driver checks that the harness list equals the model types found in src/models/*.rs). Third-party Model impls: not covered (trait contract assumed). Timing is virtual: sum of the arguments passed to the delay source. MIPI encoding oracle = support.rs::oracle_madctl (twin of vf::spec_madctl, proved equal to the code's byte in C14).",
         'technique': 'Kani loop-free symbolic execution of the real init code per model x kind, all options symbolic',
-        'verus': {'cfgs': ['default'], 'fns': [r'^builder::Builder::(invert_colors|color_order|orientation|refresh_order)$', r'^models::\w+::\w+::init$', r'^models::ili9\d\dx::init_common$', r'^builder::Builder::init$', r'^vf::lemma_ctrl_push$',
+        'verus': {'cfgs': ['default'], 'fns': [r'^builder::Builder::(new|reset_pin|invert_colors|color_order|orientation|refresh_order|display_size|display_offset)$', r'^models::\w+::\w+::init$', r'^models::ili9\d\dx::init_common$', r'^builder::Builder::init$', r'^vf::lemma_ctrl_push$',
                                                r'^dcs::set_address_mode::SetAddressMode::from$', r'^dcs::set_invert_mode::', r'^dcs::set_pixel_format::SetPixelFormat::']},
         'kani': {'files': ['builder.rs'], 'groups': [{'quick': INIT_QUICK + REFUSE, 'thorough': INIT_REST, 'jobs': 12}]},
         'models_guard': True,
@@ -270,3 +270,111 @@ PROPS = {
                         'copy_from_slice / slice range indexing: vstd specifications'],
     },
 }
+
+
+# ---- dependency-contract audit (contracts/kani/deps.rs): the contracts that prelude.rs ASSUMES about core, embedded-graphics-core
+# and heapless are asserted on the real dependency code.  Each property selects the audit harnesses of the assumed contracts its
+# Verus proof uses; they are appended to its first default-configuration Kani group (one cargo-kani invocation).
+DEP_BOUNDS = {
+    'dep_once_array_repeat': 'iter::once and [T;3] by-value iterator: complete; (0..count).map(const): count <= 4',
+    'dep_iterator_adapters': 'core Map / Filter / Take / nth through &mut on arbitrary fused streams of at most 4 items',
+    'dep_chunks_exact_mut': 'slice length <= 7, chunk size 1..=3',
+    'dep_heapless_vec': 'heapless::Vec<u16, 4> (the code is generic in the capacity N)',
+}
+DEP_GEOM = ['dep_rect_intersection', 'dep_rect_bottom_right_contains', 'dep_size_eq_bounding_box']
+DEP_CORE = ['dep_core_integer_helpers']
+DEP_ITER = ['dep_once_array_repeat', 'dep_iterator_adapters']
+DEP_USES = {
+    'C01': {'quick': DEP_GEOM + ['dep_once_array_repeat']},
+    'C02': {'quick': DEP_GEOM + DEP_ITER + ['dep_heapless_vec']},
+    'C03': {'quick': DEP_ITER + ['dep_heapless_vec']},
+    'C04': {'quick': DEP_GEOM + DEP_CORE + DEP_ITER},
+    'C05': {'quick': DEP_ITER},
+    'C06': {'quick': DEP_CORE + ['dep_chunks_exact_mut']},
+    'C07': {'quick': ['dep_once_array_repeat']},
+    'C08': {'quick': DEP_GEOM + ['dep_once_array_repeat']},
+    'C15': {'thorough': ['dep_rem_euclid_360']},
+    'C18': {'quick': DEP_CORE},
+    'C20': {'quick': DEP_GEOM + ['dep_heapless_vec', 'dep_chunks_exact_mut']},
+}
+DEP_TEXT = ('assumed dependency contracts re-checked by Kani on the real dependency code (contracts/kani/deps.rs; complete where loop-free, '
+            'bounded otherwise; the correspondence of the two formulas is by inspection): ')
+
+
+def _add_deps():
+    for pid, use in DEP_USES.items():
+        P = PROPS[pid]
+        K = P.setdefault('kani', {'files': [], 'groups': []})
+        if 'deps.rs' not in K['files']:
+            K['files'] = list(K['files']) + ['deps.rs']
+        tgt = None
+        for g in K['groups']:
+            if not g.get('no_default') and not g.get('ptr16') and g.get('quick'):
+                tgt = g
+                break
+        if tgt is None:
+            for g in K['groups']:
+                if not g.get('ptr16') and g.get('quick'):
+                    tgt = g   # the audited dependency code does not depend on the crate's features
+                    break
+        if tgt is None:
+            tgt = {'quick': [], 'jobs': 8}
+            K['groups'].append(tgt)
+        for tier in ('quick', 'thorough'):
+            for h in use.get(tier, []):
+                if h not in tgt.get('quick', []) and h not in tgt.get('thorough', []):
+                    tgt.setdefault(tier, [])
+                    tgt[tier] = list(tgt[tier]) + [h]
+                if h in DEP_BOUNDS:
+                    tgt.setdefault('bounded', {})
+                    tgt['bounded'] = dict(tgt['bounded'], **{h: DEP_BOUNDS[h]})
+        tgt.setdefault('jobs', 8)
+        hs = use.get('quick', []) + use.get('thorough', [])
+        P['assumptions'] = list(P.get('assumptions', [])) + [DEP_TEXT + ', '.join(hs)]
+
+
+_add_deps()
+
+
+# ---- harnesses added after the third round of seeded changes (state carried between calls, three-word pixels, transports under C01)
+SEQ_SPI = {'c06_call_sequence_bounded': 'three calls on one SpiInterface (fill; fill or stream of <= 2 pixels with a loose size_hint and one arbitrary fault; fill), buffer 2..=5 bytes, N = 2, counts <= 3'}
+SEQ_PAR = {'c07_send_pixels_3word_bounded': '2 pixels x 3 words on the 8-bit bus', 'c07_call_sequence_bounded': 'two calls on one ParallelInterface, one two-word pixel each'}
+EXTRA = {
+    'C06': {'files': ['spi.rs'], 'quick': SEQ_SPI},
+    'C20': {'files': ['spi.rs'], 'quick': SEQ_SPI, 'after': 'c06_repeated_pixel_bounded'},
+    'C05': {'files': ['spi.rs', 'parallel.rs'], 'quick': dict(SEQ_SPI, **SEQ_PAR)},
+    'C07': {'files': ['parallel.rs'], 'quick': SEQ_PAR, 'thorough': {'c07_send_repeated_pixel_3word_bounded': 'three-word pixel, count <= 2'}},
+    'C11': {'files': ['builder.rs'], 'quick': {'c11_builder_call_order': None}},
+    'C09': {'files': ['builder.rs'], 'quick': {'c11_builder_call_order': None}},
+    'C17': {'files': ['builder.rs'], 'quick': {'c11_builder_call_order': None}},
+    'C08': {'files': ['batch.rs'], 'quick': {'c03_block_capacity_rows': 'one concrete input: three stacked rows of width 40 (the third no longer fits the 100-colour block)'}},
+    'C03': {'files': ['batch.rs'], 'quick': {'c03_block_capacity_rows': 'one concrete input: three stacked rows of width 40 (the third no longer fits the 100-colour block)'}},
+    # C01 quantifies over the transports: what the controller decodes is what the pins / the SPI wire carry (C06/C07 obligations)
+    'C01': {'files': ['spi.rs', 'parallel.rs'], 'tags': ['C06', 'C07'],
+            'quick': {'c07_set_value_step_8': None, 'c07_set_value_step_16': None, 'c07_send_word_latches_word': None, 'c06_send_command_order_and_faults': None}},
+}
+
+
+def _add_extra():
+    for pid, use in EXTRA.items():
+        P = PROPS[pid]
+        K = P['kani']
+        K['files'] = list(K['files']) + [f for f in use.get('files', []) if f not in K['files']]
+        tgt = None
+        for g in K['groups']:
+            if not g.get('no_default') and not g.get('ptr16') and g.get('quick') and (not use.get('after') or use['after'] in g['quick']):
+                tgt = g
+                break
+        for tier in ('quick', 'thorough'):
+            for h, bound in use.get(tier, {}).items():
+                if h in tgt.get('quick', []) or h in tgt.get('thorough', []):
+                    continue
+                tgt[tier] = list(tgt.get(tier, [])) + [h]
+                if bound:
+                    tgt['bounded'] = dict(tgt.get('bounded', {}), **{h: bound})
+        tgt.setdefault('jobs', 8)
+        if use.get('tags'):
+            P['tags'] = [pid] + use['tags']
+
+
+_add_extra()
